@@ -154,6 +154,24 @@ def _reviewed(v: "FnView") -> dict | None:
     return _REVIEWED.get(v.fn.key)
 
 
+def new_helpers(v: "FnView") -> list:
+    """Functions of the same module that the function calls by plain name and that the reviewed
+    tree did not have (an extracted helper).  Their statements belong to the reviewed function."""
+    global _REVIEWED
+    _reviewed(v)
+    out = []
+    if not _REVIEWED:
+        return out
+    for c in walk_own(v.fn.node):
+        if isinstance(c, ast.Call) and isinstance(c.func, ast.Name):
+            key = f"{v.fn.module.rel}::{c.func.id}"
+            if key not in _REVIEWED and key in v.prog.funcs:
+                f = v.prog.funcs[key]
+                if f not in out:
+                    out.append(f)
+    return out
+
+
 def new_names(v: "FnView") -> set[str]:
     """Locals (and parameters) of the function that the reviewed tree's version of it did not
     contain (selftest/reviewed_shape.json).  Only ever used to decline a judgement."""
@@ -269,7 +287,7 @@ def _node_facts(v: FnView) -> list:
     for n in v.cfg.nodes:
         if n.kind in ("T", "F") and isinstance(n.node, ast.expr):
             fs = set(_facts(n.node, n.kind == "T"))
-            for d in (1, 2, 3, 4):
+            for d in (1, 2, 3, 4, 8):
                 fs |= set(_facts(n.node, n.kind == "T", v.res.src_at(d)))
             if any(isinstance(x, ast.Name) and x.id in v.res.defs for x in ast.walk(n.node)):
                 # a flag local (`match_all = name == "_"`): the facts of its defining expression
@@ -365,8 +383,33 @@ def _node_disjunctions(v: FnView) -> list:
     return out
 
 
+def full_fact(v: FnView, fact: str) -> str | None:
+    """The fact with every single-assignment local of the *current* function replaced by its
+    definition (the form every node fact also has at full depth): a need written with some locals
+    resolved and others not is still found after a refactoring introduced or inlined locals."""
+    if fact.startswith(("re:", "exhausted(")):
+        return None
+    raw = fact.startswith("raw:")
+    body = fact[4:] if raw else fact
+    try:
+        tree = ast.parse(body, mode="eval").body
+    except SyntaxError:
+        return None
+    if not any(isinstance(x, ast.Name) and x.id in v.res.defs for x in ast.walk(tree)):
+        return None
+    out = " ".join(src(v.res.expr(tree, 8)).split())
+    return ("raw:" if raw else "") + out
+
+
 def _establishing(v: FnView, fact: str) -> list:
     """T/F nodes of the CFG whose outcome establishes `fact`."""
+    ff = full_fact(v, expand_vanished(v, fact))
+    if ff is not None and ff != fact:
+        return _establishing1(v, fact) + [n for n in _establishing1(v, ff)]
+    return _establishing1(v, fact)
+
+
+def _establishing1(v: FnView, fact: str) -> list:
     out = []
     if fact.startswith("exhausted(") or fact.startswith("re:exhausted"):
         # a for loop ran to completion (no break / early return): its for-exit node
@@ -400,7 +443,7 @@ def need_holds(v: FnView, node: ast.AST, alts: list[str], raw: bool = False, non
 
     eg = expr_guards(node, stop=v.cfg._stop_for(node))
     local = fact_set(eg)
-    for d in (1, 2, 3, 4):
+    for d in (1, 2, 3, 4, 8):
         local |= fact_set(eg, v.res.src_at(d))
     flagged = [(v.res.expr(a, d), o) for a, o in eg for d in (1, 2) if isinstance(a, ast.expr) and any(isinstance(x, ast.Name) and x.id in v.res.defs for x in ast.walk(a))]
     if flagged:
@@ -433,7 +476,7 @@ def need_holds(v: FnView, node: ast.AST, alts: list[str], raw: bool = False, non
             want = alpha(fs[0][4:], v.locals | vanished(v, fs[0]))
             if any(alpha(f, v.locals) == want for f in local):
                 return True
-        elif fs[0] in local:
+        elif fs[0] in local or ((ff := full_fact(v, fs[0])) is not None and ff in local):
             return True
         elif (gone := vanished(v, fs[0])) and any(alpha(f, v.locals) == alpha(fs[0], v.locals | gone) for f in local):
             return True
